@@ -431,14 +431,17 @@ func (w *walReader) CloseAndRepair() error {
 	idx := w.wi.headIdx
 	for _, s := range w.wi.fileSizes {
 		if left <= s {
-			if left < s {
-				err := os.Truncate(fileFor(w.id, idx), left)
-				if err != nil {
+			// Remove the later segments from the tail downwards and cut the
+			// invalid suffix last: if the process dies in between, the
+			// remaining segments are contiguous and the next repair resumes.
+			for i := w.wi.tailIdx; i > idx; i-- {
+				if err := os.Remove(fileFor(w.id, i)); err != nil {
 					return errors.WithStack(err)
 				}
 			}
-			for i := idx + 1; i <= w.wi.tailIdx; i++ {
-				if err := os.Remove(fileFor(w.id, i)); err != nil {
+			if left < s {
+				err := os.Truncate(fileFor(w.id, idx), left)
+				if err != nil {
 					return errors.WithStack(err)
 				}
 			}
